@@ -396,6 +396,73 @@ func (lo *lockOrder) cycles() [][]string {
 	return out
 }
 
+// globalWrites lists uses of package-level variables of the module that can modify them outside a package initialiser:
+// a store to the variable, or its address handed to a call / stored / captured (the callee may write through it).
+func globalWrites(w *World) []string {
+	var out []string
+	lo := &lockOrder{w: w}
+	for _, fn := range w.funcs {
+		if !lo.moduleFn(fn) || fn.Name() == "init" || strings.HasPrefix(fn.Name(), "init#") {
+			continue
+		}
+		var visit func(f *ssa.Function)
+		visit = func(f *ssa.Function) {
+			for _, b := range f.Blocks {
+				for _, ins := range b.Instrs {
+					use := func(v ssa.Value, how string) {
+						g, ok := v.(*ssa.Global)
+						if !ok || g.Pkg == nil || !strings.HasPrefix(g.Pkg.Pkg.Path(), modPath) {
+							return
+						}
+						if pt, ok := g.Type().(*types.Pointer); ok {
+							if n, ok := pt.Elem().(*types.Named); ok && n.Obj().Pkg() != nil && n.Obj().Pkg().Path() == "sync" {
+								return // a package-level mutex: locking it is what it is for
+							}
+						}
+						if g.Pkg.Pkg.Path() == modPath+"/logging" {
+							return // the logger is replaced and read under the package's own mutex (logging.mux) - see log.go
+						}
+						out = append(out, fmt.Sprintf("%s %s package variable %s.%s (%s)", shortKey(funcKey(f)), how, g.Pkg.Pkg.Name(), g.Name(), posString(w, ins.Pos())))
+					}
+					switch t := ins.(type) {
+					case *ssa.Store:
+						use(t.Addr, "stores to")
+						use(t.Val, "stores the address of")
+					case ssa.CallInstruction:
+						for _, a := range t.Common().Args {
+							use(a, "passes the address of")
+						}
+					case *ssa.MakeClosure:
+						for _, bnd := range t.Bindings {
+							use(bnd, "captures the address of")
+						}
+					case *ssa.FieldAddr:
+						// &global.field: followed by a store or a call in most cases; flagged when stored to / passed on
+						if g, ok := t.X.(*ssa.Global); ok && g.Pkg != nil && strings.HasPrefix(g.Pkg.Pkg.Path(), modPath) {
+							for _, r := range *t.Referrers() {
+								switch rr := r.(type) {
+								case *ssa.Store:
+									if rr.Addr == ssa.Value(t) {
+										use(g, "stores to a field of")
+									}
+								case ssa.CallInstruction:
+									use(g, "passes the address of a field of")
+								}
+							}
+						}
+					}
+				}
+			}
+			for _, an := range f.AnonFuncs {
+				visit(an)
+			}
+		}
+		visit(fn)
+	}
+	sort.Strings(out)
+	return out
+}
+
 func cmdLockOrder(args []string) {
 	repo := "/repo"
 	if len(args) > 0 {
@@ -424,6 +491,9 @@ func cmdLockOrder(args []string) {
 	}
 	for a, wit := range lo.selfs {
 		fmt.Printf("SELF %s : %s\n", a, wit)
+	}
+	for _, g := range globalWrites(w) {
+		fmt.Printf("GLOBAL %s\n", g)
 	}
 	for _, b := range lo.blocks {
 		fmt.Printf("BLOCK %s\n", b)
